@@ -3,6 +3,7 @@
 from .. import common, gen, probe
 from ..driver import CacheDriver, Mismatch
 from ..model import Ambiguous
+from ..sched import Recorder, Sched
 
 PROP = 'C04'
 LEVEL = 'exploration'
@@ -10,9 +11,14 @@ RULE = ('expiry-centred histories (populations of 1/99/100/101/250 items on one 
         'ttl in {None, tiny, 0, negative, huge}, clock moves none/tiny/past-one/past-all) on Cache and '
         'FanoutCache(3), judged call by call against RefCache under a virtual clock; evaluations = calls judged; '
         'distinct_nontrivial = distinct (operation, item state live/expired/absent, outcome, container) cells plus '
-        'distinct (population, shared-instant, container) expire() scenarios')
-DISTINCT = ('cells', 'expire_scenarios')
-REQUIRED = ('calls_judged', 'expire_calls_over_one_page', 'lookups_of_expired_items', 'lookups_of_live_items',
+        'distinct (population, shared-instant, container) expire() scenarios. Concurrent tier: 2-4 clients under the '
+        'cooperative schedule fuzzer (SQL-statement granularity) - some re-create expired-but-present keys without a '
+        'ttl (set/add/incr), the others only remove expired items (peekitem, peek, expire, cull, lazily culling '
+        'writes, lookups); no lookup may return an expired value and afterwards every key with a completed permanent '
+        'write must be present with a written value, every other key absent; distinct schedule traces with a '
+        'preemption inside an operation are counted')
+DISTINCT = ('cells', 'expire_scenarios', 'concurrent_schedules_with_preemption')
+REQUIRED = ('calls_judged', 'concurrent_programs', 'concurrent_rewrites_of_expired_rows', 'expire_calls_over_one_page', 'lookups_of_expired_items', 'lookups_of_live_items',
             'lazy_cull_writes', 'fanout_histories', 'cache_histories', 'shared_instant_batches')
 ASSUMPTIONS = ('virtual clock replaces time.time inside diskcache.core and diskcache.fanout',
                'expiry instants are positive (ttl >= -1e6 s at epoch 1.7e9): non-positive instants are outside the domain',
@@ -138,10 +144,164 @@ def history(dc, sc, res, rng, kind, cfg, label, scale):
         sc.drop(d)
 
 
+QHEAD = 500000000000000      # the key push() gives the first item of the default queue
+
+
+def concurrent(dc, sc, res, rng, label):
+    """Removal of expired items racing with writers that bring the same keys back to life."""
+    T = 64
+    d = sc.new()
+    clock = probe.set_clock(probe.VClock())
+    settings = {'disk_min_file_size': T, 'timeout': 0, 'cull_limit': gen.pick(rng, [0, 1, 10]),
+                'eviction_policy': gen.pick(rng, ['least-recently-stored', 'least-recently-used', 'none'])}
+    setup = dc.Cache(d, **settings)
+    keys = ['a', 'm', 'z', QHEAD, QHEAD + 1]
+    rng.shuffle(keys)
+    keys = keys[:rng.randrange(1, 5)]
+    old = {}
+    for k in keys:                               # expired but physically present, in this rowid order
+        old[k] = ('old-%s;' % k) * (1 if rng.random() < 0.5 else T)
+        setup.set(k, old[k], expire=-1.5)
+    nclients = rng.randrange(2, 5)
+    shared = rng.random() < 0.4
+    caches = [setup if shared else dc.Cache(d, timeout=0) for _ in range(nclients)]
+    counter = [0]
+
+    def fresh(ci):
+        counter[0] += 1
+        return ('new-%d-%d;' % (ci, counter[0])) * (1 if rng.random() < 0.5 else T)
+
+    prog = []
+    for ci in range(nclients):
+        ops = []
+        writer = ci == 0 or rng.random() < 0.4
+        for _ in range(rng.randrange(1, 4)):
+            k = gen.pick(rng, keys)
+            if writer and rng.random() < 0.7:
+                r = rng.random()
+                if r < 0.5:
+                    ops.append(('set', (k, fresh(ci)), {}))
+                elif r < 0.8:
+                    ops.append(('add', (k, fresh(ci)), {}))
+                else:
+                    ops.append(('incr', (k, ci + 1), {}))
+            else:
+                what = gen.pick(rng, ['peekitem', 'peekitem', 'peekitem', 'peek', 'expire', 'cull', 'lazy', 'get',
+                                      'contains', 'touch'])
+                if what == 'peekitem':
+                    ops.append(('peekitem', (), {'last': rng.random() < 0.5}))
+                elif what == 'peek':
+                    ops.append(('peek', (), {'side': gen.pick(rng, ['front', 'back'])}))
+                elif what in ('expire', 'cull'):
+                    ops.append((what, (), {}))
+                elif what == 'lazy':
+                    ops.append(('set', ('w%d' % ci, fresh(ci)), {}))
+                elif what == 'touch':
+                    ops.append(('touch', (k, None), {}))
+                else:
+                    ops.append((what, (k,), {}))
+        prog.append(ops)
+
+    def do(cache, op, args, kw):
+        if op == 'contains':
+            return args[0] in cache
+        if op == 'get':
+            return cache.get(args[0], 'MISS', retry=True)
+        return getattr(cache, op)(*args, retry=True, **kw)
+
+    strategy = gen.pick(rng, ['random', 'random', 'preempt', 'preempt', 'roundrobin'])
+    sch = Sched(rng, clock, strategy=strategy, preempt_points={rng.randrange(0, 60) for _ in range(rng.randrange(1, 4))})
+    rec = Recorder(sch)
+
+    def client(ci):
+        def run():
+            for op, args, kw in prog[ci]:
+                rec.call(ci, op, args, lambda: do(caches[ci], op, args, kw), kw)
+        return run
+
+    try:
+        completed = sch.run([client(i) for i in range(nclients)])
+        probe.set_controller(None)
+        wit = {'label': label, 'program': prog, 'expired_present_keys': keys, 'shared_object': shared,
+               'settings': settings, 'strategy': strategy, 'trace_head': sch.trace[:60]}
+        errs = sch.errors()
+        if errs:
+            res.violation('client thread died: %s' % (errs[0][1][1][-400:],), wit)
+            return
+        if not completed:
+            res.count('concurrent_schedules_hit_step_cap')
+            return
+        wit['history'] = [{x: o[x] for x in ('client', 'op', 'args', 'kw', 'call', 'ret', 'kind', 'result')} for o in rec.ops]
+        written = {}
+        for o in rec.ops:
+            if o['kind'] == 'raise' and not (o['op'] in ('peekitem',) and o['result'] == 'KeyError') \
+                    and not (o['op'] == 'incr' and o['result'] == 'TypeError'):
+                res.violation('%s raised %s (%s)' % (o['op'], o['result'], o.get('exc')), wit)
+                return
+            if o['op'] in ('set', 'add', 'incr') and o['args'][0] in old:
+                res.count('concurrent_rewrites_of_expired_rows')
+                if o['op'] == 'incr':
+                    written.setdefault(o['args'][0], set()).add('<number>')
+                elif o['op'] == 'set' or o['result'] is True:
+                    written.setdefault(o['args'][0], set()).add(o['args'][1])
+            res.count('evaluations')
+            res.count('calls_judged')
+        stale = set(old.values())
+        for o in rec.ops:                    # an expired value is never handed out
+            if o['kind'] != 'ok':
+                continue
+            got = o['result']
+            vals = [got] if o['op'] == 'get' else [got[1]] if o['op'] in ('peekitem', 'peek') and isinstance(got, tuple) else []
+            for v in vals:
+                if isinstance(v, str) and v in stale:
+                    res.violation('%s returned the value of an item whose expiry time had passed' % o['op'],
+                                  dict(wit, returned=v[:40]))
+                    return
+            if o['op'] == 'touch' and got is True and o['args'][0] not in written:
+                res.violation('touch brought an expired item back to life', wit)
+                return
+        check = dc.Cache(d)
+        try:
+            for k in keys:
+                v = check.get(k, 'MISS')
+                if k in written:
+                    ok = (isinstance(v, int) and '<number>' in written[k]) or v in written[k]
+                    if not ok:
+                        res.violation('key %r was rewritten without a ttl by a completed call and nothing removes live '
+                                      'items, yet afterwards get returns %s' % (k, repr(v)[:40]),
+                                      dict(wit, key=k, candidates=[repr(x)[:30] for x in written[k]]))
+                        return
+                    if k not in check:
+                        res.violation('key %r rewritten without a ttl is reported absent' % (k,), wit)
+                        return
+                elif v != 'MISS' or k in check:
+                    res.violation('expired key %r is visible after the run' % (k,), wit)
+                    return
+        finally:
+            check.close()
+        res.count('concurrent_programs')
+        if sch.preemptions_in_op:
+            res.seen('concurrent_schedules_with_preemption', sch.trace_hash())
+    finally:
+        probe.set_controller(None)
+        for c in set(caches) | {setup}:
+            try:
+                c.close()
+            except Exception:     # noqa: BLE001
+                pass
+        sc.drop(d)
+
+
 def run_shard(tier, seed, shard, nshards, res):
     dc = common.use_repo()
     probe.install()
     n = 10 if tier == 'quick' else 80
+    with common.Scratch() as sc:
+        for i in range(60 if tier == 'quick' else 600):
+            rng = common.rng_for(seed, 'c04c', shard, i)
+            concurrent(dc, sc, res, rng, 'c04 concurrent seed=%d shard=%d i=%d' % (seed, shard, i))
+            if res.counters.get('violations_raw', 0) > 10:
+                return
     with common.Scratch() as sc:
         for i in range(n):
             rng = common.rng_for(seed, 'c04', shard, i)
